@@ -24,7 +24,7 @@ ASSUMPTIONS = [
 ]
 MANIFEST = {'text': 'proof (all normal paths) of the structural conditions under which a full channel can only delay: try_send exists only in the helper, the helper re-sends the very value returned by '
                     'Full with a blocking send, every pipeline outflow in the binary is that helper or a blocking send, each stage inspects send results, contains no other blocking call, and is linear in messages.'
-                    ' Added: the lifecycle stage queues a received message without a send attempt only while a lifecycle is unconfirmed (so a vanished consumer is noticed). Added: the lifecycle stage hands no message to the outflow while the table has unrefreshed updates, and publishes after every un-buffering before any outflow call (what the next stage reads from the table does not depend on the pacing; same discipline as C06 T1/T2/T4).'}
+                    ' Added: the lifecycle stage queues a received message without a send attempt only while a lifecycle is unconfirmed (so a vanished consumer is noticed). Added: the lifecycle stage hands no message to the outflow while the table has unrefreshed updates, and publishes after every un-buffering before any outflow call (what the next stage reads from the table does not depend on the pacing; same discipline as C06 T1/T2/T4). Added: the remote close drains the pipeline output until Disconnected before it joins any stage thread (shared with C15 R3).'}
 
 TRY_SEND = re.compile(r'::try_send$')
 BLOCKING = re.compile(r'^(std::thread::sleep|std::thread::park\w*|std::thread::JoinHandle::<T>::join|std::sync::Condvar::\w+|std::sync::Mutex::<T>::lock|std::sync::Barrier::wait|'
@@ -80,6 +80,15 @@ def run(F, chk):
         c06.check_table_discipline(F, b, S7, S8, T3s, T4s)
         for v in T4s.violations:
             S7.violation(('closure-leaves-dirty',) + tuple(v['key'].split('|')[2:]), v['msg'], where=v.get('where'))
+    # S9: "when the consumer disappears, every stage terminates" - the remote `close` is the consumer going away on purpose: it must
+    # keep emptying the output channel until every sender is gone (Disconnected) and join the stage threads only afterwards
+    S9 = chk.rule('S9', 'remote close: the pipeline output is drained in a loop left only on Disconnected, and no stage thread is joined before that (a stage blocked in a full bounded channel can only finish while someone still receives); same rule as C15 R3')
+    import c15
+    hh = F.get('adlt_bin::remote::process_incoming_text_message')
+    if hh is None:
+        S9.violation(('anchor-lost', 'process_incoming_text_message'), 'remote command handler not found')
+    else:
+        c15.check_close(F, hh, S9)
     helpers = find_helper(F)
     S2.floor('blocking-send helper (anchor: fn(T, &SyncSender<T>) -> Result<(), SendError<T>>)', len(helpers), 1)
     helper_paths = set(h.path for h in helpers)
